@@ -183,20 +183,22 @@ def run_rules(P, rules):
     for rule in rules:
         fn, kw = (rule, {}) if not isinstance(rule, tuple) else rule
         rs = _run_one(P, fn, kw)
-        if any(o.undecided for rr in rs for o in rr.obs):
-            # second view: extracted helpers folded back into their callers (sa/inline.py).  Taken only when every obligation
-            # holds there; a violation found on the program as written is never replaced.
-            if not any((not o.ok and not o.undecided) for rr in rs for o in rr.obs):
-                for label, P2 in (P.inlined_views() if hasattr(P, "inlined_views") else ()):
-                    rs2 = _run_one(P2, fn, kw)
-                    # the second view only discharges: rules are calibrated on the text as written, so a complaint that appears
-                    # only after inlining may be an artefact of the rewriting and leaves the rule undecided
-                    if all(o.ok for rr in rs2 for o in rr.obs):
-                        for rr in rs2:
-                            rr.note(f"decided on the helper-inlined view [{label}] of the program (the rule was undecided on the text as written): "
-                                    + "; ".join(f"{m.rel}: {l}" for m in P2.modules.values() for l in m.transform_log)[:1500])
-                        rs = rs2
-                        break
+        if any(not o.ok for rr in rs for o in rr.obs):
+            # Other views of the same program (sa/inline.py: single-assignment temporaries replaced by their definitions, extracted
+            # helpers folded back into their callers).  The re-writings preserve behaviour, so if the rule finds every obligation
+            # discharged on one of them - and did not lose obligations on the way - the complaint on the text as written was about
+            # its wording, not its behaviour.  A view can only discharge: complaints that appear on a view are never reported.
+            n_obs = sum(len(rr.obs) for rr in rs)
+            n_bad = sum(1 for rr in rs for o in rr.obs if not o.ok)
+            for label, P2 in (P.inlined_views() if hasattr(P, "inlined_views") else ()):
+                rs2 = _run_one(P2, fn, kw)
+                if all(o.ok for rr in rs2 for o in rr.obs) and sum(len(rr.obs) for rr in rs2) >= n_obs - n_bad:
+                    for rr in rs2:
+                        rr.note(f"decided on the view [{label}] of the program (on the text as written the rule reported "
+                                f"{n_bad} obligation(s) as violated/undecided): "
+                                + "; ".join(f"{m.rel}: {l}" for m in P2.modules.values() for l in m.transform_log)[:1200])
+                    rs = rs2
+                    break
         results.extend(rs)
     return results
 
